@@ -1,7 +1,9 @@
 #!/usr/bin/env python3
 """Apply each seeded change to a copy of the repository, run the checks, record which fire.
 
-  seedmatrix.py <seeds|all> [<checks>] [--workers N]
+  seedmatrix.py <seeds|all> [<checks>] [--workers N] [--own]
+
+--own: for each seed run only the check of the property it was written against.
 
 With --workers N > 1 it creates N private copies of /verif (ROOT) and of the repository under
 $TMPDIR (default /tmp/seedmx) and spreads the seeds over them. Without it, it works in place on
@@ -12,6 +14,7 @@ sys.path.insert(0, os.path.join(ROOT, 'tools'))
 import props as P
 REPO = os.environ.get('VERIF_REPO', '/repo')
 args = [a for a in sys.argv[1:] if not a.startswith('--')]
+OWN = '--own' in sys.argv
 workers = 1
 if '--workers' in sys.argv:
     workers = int(sys.argv[sys.argv.index('--workers') + 1])
@@ -34,7 +37,7 @@ def run_seed(root, repo, build, s):
     row = {}
     env = dict(os.environ, VERIF_REPO=repo, VERIF_BUILD=build)
     try:
-        for c in checks:
+        for c in ([('C02' if s == 'M01' else s[:3])] if OWN else checks):
             q = subprocess.run([os.path.join(root, 'check'), c], capture_output=True, text=True, cwd=root, env=env)
             v = [l for l in q.stdout.split('\n') if l.startswith('VIOLATION')]
             if q.returncode == 0:
